@@ -74,6 +74,10 @@ func c17(r *vlib.Run) int {
 	}
 	vlib.Parallel(n, 12, func(i int) {
 		crng := rand.New(rand.NewSource(seeds[i]))
+		if i%16 == 15 {
+			c17EntryRemoved(r, i, crng, keys, keyFiles, client)
+			return
+		}
 		if i%8 == 7 {
 			c17Reconnect(r, i, crng, keys, keyFiles, client)
 			return
@@ -415,6 +419,90 @@ func c17Reconnect(r *vlib.Run, i int, rng *rand.Rand, keys []*vlib.Key, keyFiles
 				"connection": c, "first_key_known": firstKnown, "connections": conns})
 			return
 		}
+	}
+}
+
+// c17EntryRemoved: dtail is connected to a known host; while it runs, the
+// host's entry is removed from known_hosts (ssh-keygen -R, configuration
+// management). The server hangs up, dtail reconnects: the host is unknown now,
+// the user answers no, so no connection made after the removal may receive
+// commands. Connections are ordered against the removal by the wall clock both
+// processes log (a connection is judged only if it began after the removal).
+func c17EntryRemoved(r *vlib.Run, i int, rng *rand.Rand, keys []*vlib.Key, keyFiles []string, client *vlib.Key) {
+	port := vlib.FreePort()
+	k1 := rng.Intn(5)
+	home, keyFile := r.ClientHome(fmt.Sprintf("c17e-%d", i), client)
+	defer os.RemoveAll(home)
+	addr := fmt.Sprintf("127.0.0.1:%d", port)
+	unrelated := c17Unrelated(rng, keys)
+	khPath := filepath.Join(home, ".ssh", "known_hosts")
+	hashed := rng.Intn(3) == 0
+	entry := khLine(addr, keys[k1])
+	if hashed {
+		entry = khHashed(addr, keys[k1])
+	}
+	os.WriteFile(khPath, []byte(strings.Join(append(append([]string(nil), unrelated...), entry), "\n")+"\n"), 0600)
+	f, err := startFakeSSHD(r, fmt.Sprintf("c17e-%d", i), []int{port}, []string{keyFiles[k1]}, "", 200)
+	if err != nil {
+		r.Inconclusive("fakesshd")
+		return
+	}
+	defer f.Stop()
+	var removedAt int64
+	done := make(chan struct{})
+	go func() {
+		defer close(done)
+		deadline := time.Now().Add(20 * time.Second)
+		for time.Now().Before(deadline) {
+			for _, e := range f.Events() {
+				if e.Ev == "shell" && e.Conn == 0 {
+					os.WriteFile(khPath+".new", []byte(strings.Join(unrelated, "\n")+"\n"), 0600)
+					os.Rename(khPath+".new", khPath)
+					removedAt = time.Now().UnixNano()
+					return
+				}
+			}
+			time.Sleep(10 * time.Millisecond)
+		}
+	}()
+	args := []string{"--cfg", "none", "--logger", "none", "--key", keyFile, "--user", "tester", "--servers", addr, "--files", "/var/log/x.log", "--shutdownAfter", "9"}
+	pr, pw, _ := os.Pipe()
+	pw.WriteString("n\nn\nn\nn\nn\nn\n")
+	defer pw.Close()
+	res := runWithStdinFile(r, "dtail", args, home, pr)
+	pr.Close()
+	<-done
+	r.Eval(fmt.Sprintf("entry-removed|%d|%v", k1, hashed))
+	r.Count("entry_removed_cases", 1)
+	if res.TimedOut || removedAt == 0 {
+		r.Inconclusive("entry-removed-not-staged")
+		return
+	}
+	connAt := map[int]int64{}
+	commands := map[int]bool{}
+	for _, e := range f.Events() {
+		if e.Ev == "conn" {
+			connAt[e.Conn] = e.T
+		}
+		if e.Ev == "shell" || e.Ev == "data" {
+			commands[e.Conn] = true
+		}
+	}
+	later := 0
+	for c, t := range connAt {
+		if c > 0 && t > removedAt {
+			later++
+			if commands[c] {
+				r.Violation("untrusted-server-received-commands", map[string]interface{}{"scenario": "the host's known_hosts entry was removed while dtail was connected; the user answered no at the reconnect",
+					"connection": c, "hashed_entry": hashed, "connections": len(connAt)})
+				return
+			}
+		}
+	}
+	r.Count("entry_removed_reconnects_judged", later)
+	// (a host the client adds is written in the clear, as [host]:port)
+	if b, err := os.ReadFile(khPath); err == nil && strings.Contains(string(b), fmt.Sprintf("[127.0.0.1]:%d", port)) {
+		r.Violation("refused-host-recorded", map[string]interface{}{"scenario": "entry removed while connected; user answered no", "known_hosts": vlib.Trunc(string(b), 800)})
 	}
 }
 
